@@ -667,7 +667,8 @@ class World:
             self.effect("hook", argv=argv)
             rc = int(self.hook_rc(self, argv)) if self.hook_rc else 0
             e = env if env is not None else os.environ
-            self.record("hook", argv=argv, rc=rc, env={k: v for k, v in e.items() if k.startswith("JADE_")})
+            self.record("hook", argv=argv, rc=rc, env={k: v for k, v in e.items() if k.startswith("JADE_")},
+                        batch=self.cur.batch, results_on_disk=self.result_names(e.get("JADE_RUNTIME_OUTPUT")))
             out, err = "", ""
         elif stdout is not None and stdout is not subprocess.PIPE and env is not None and "JADE_JOB_NAME" in env:
             return self._launch_job(argv, env, stdout, stderr)
